@@ -530,6 +530,11 @@ fn stop_case(ctx: &mut Ctx, idx: u64, via_ffi: bool) {
             let mut all: Vec<u8> = vec![];
             for &x in &stream[..=ti] {
                 let w = &v.words[x as usize];
+                if spec.stop_tokens.contains(&x) {
+                    // the stop token's own bytes are not part of the text: a character may be cut there
+                    all.push(0xFF);
+                    break;
+                }
                 if !w.is_empty() && w[0] != 0xFF {
                     all.extend_from_slice(w);
                 } else {
@@ -548,6 +553,12 @@ fn stop_case(ctx: &mut Ctx, idx: u64, via_ffi: bool) {
             let mut all: Vec<u8> = vec![];
             for &x in &stream[..=ti] {
                 let w = &v.words[x as usize];
+                if spec.stop_tokens.contains(&x) {
+                    if std::str::from_utf8(&all).is_err() {
+                        all.push(0xFF); // stop token in the middle of a character
+                    }
+                    break;
+                }
                 if !w.is_empty() && w[0] != 0xFF {
                     all.extend_from_slice(w);
                 } else if std::str::from_utf8(&all).is_err() {
